@@ -364,6 +364,18 @@ var flSeen struct{ complete, hostile int }
 func runFlash(e *ev.Env) {
 	setup(e)
 	defer stopProfile()
+	if e.Only == isoCase {
+		// child of isolated(): the cookie comes through the environment
+		e.Corpus("isolated-input", func(c *ev.Case) {
+			cookie, _ := isoInput()
+			if len(cookie) == 0 {
+				e.Inconclusive("isolated child without input")
+				return
+			}
+			hostileCookie(e, c, "", cookie)
+		})
+		return
+	}
 
 	script := func(name string, spec *flashSpec, reqA []byte) {
 		e.Corpus(name, func(c *ev.Case) { flashScript(e, c, spec, reqA) })
@@ -539,7 +551,7 @@ func runFlash(e *ev.Env) {
 	} {
 		f := f
 		e.Corpus(f.name, func(c *ev.Case) {
-			if !isolated(e, c, "wire.flash", hexOf(f.b)) {
+			if !isolated(e, c, "wire.flash", f.b, "") {
 				return
 			}
 			hostileCookie(e, c, "invalid", f.b)
@@ -962,7 +974,7 @@ func hostileCookie(e *ev.Env, c *ev.Case, kind string, cookie []byte) {
 	if c.ID[:6] != "corpus" && len(view) >= 5 && view[0] == 0xdd {
 		// array32 header as the server will see it: at least 2^29 announced elements
 		e.Stat("fatal_candidates", 1)
-		if !isolated(e, c, "wire.flash", hexOf(req)) {
+		if !isolated(e, c, "wire.flash", cookie, "") {
 			return
 		}
 	}
